@@ -27,8 +27,9 @@ ASSUMPTIONS = [
     'a bare (unwrapped) Read Tag Fragmented is not generated: its service code 0x52 is documented as indistinguishable '
     'from an Unconnected Send',
     'tag names where one is a dotted prefix of another are not generated (symbol resolution is by first known prefix)',
-    'values written are within the range of the request type, and the request type equals the tag type (cross-type and '
-    'out-of-range writes belong to C05)',
+    'seven in eight requests are valid (in bounds, request type = tag type, values within the type\'s range); one in eight is '
+    'drawn from C05\'s boundary generator (out of bounds, cross-type, wrong-size Set Attribute Single, unknown tag): the same '
+    'model then demands a refusal that changes nothing -- "a write changes only the addressed elements of the addressed tag"',
 ]
 MIN_EVALUATIONS = {'quick': 300, 'thorough': 5000}
 
@@ -38,7 +39,7 @@ def pred(case, stats):
 
 
 CLAUSES = {'history': pred, 'tcp-history': lambda case, stats: pred_tcp_replay(case, stats)}
-STRATEGIES = {'history': lambda max_ops: tagcheck.case_strategy('valid', max_ops)}
+STRATEGIES = {'history': lambda max_ops: tagcheck.case_strategy('mixed', max_ops)}
 
 
 # -- the same histories over TCP against enip.main.main() (one generated configuration per worker process): tagcheck.tcp_*
@@ -50,7 +51,7 @@ def pred_tcp(case, stats):
 
 def tcp_shard(job):
     _, seed, i, n, max_ops = job
-    return tagcheck.tcp_shard(PID, 'valid', seed, i, n, max_ops, pred_tcp)
+    return tagcheck.tcp_shard(PID, 'mixed', seed, i, n, max_ops, pred_tcp)
 
 
 def shard(job):
@@ -58,7 +59,7 @@ def shard(job):
         return tcp_shard(job)
     seed, i, n, max_ops = job
     s = Stats()
-    common.hyp_run(s, tagcheck.case_strategy('valid', max_ops), pred, n, common.shard_seed(seed, i), 'history', PID, skey=max_ops)
+    common.hyp_run(s, tagcheck.case_strategy('mixed', max_ops), pred, n, common.shard_seed(seed, i), 'history', PID, skey=max_ops)
     return s
 
 
